@@ -1468,6 +1468,41 @@ namespace bloch::compiler {
         if (auto newExpr = dynamic_cast<NewExpression*>(expr)) {
             return typeFromAst(newExpr->classType.get());
         }
+        // The value of an assignment expression has the type of its target.
+        if (auto asg = dynamic_cast<AssignmentExpression*>(expr)) {
+            TypeInfo local = getVariableType(asg->name);
+            if (!isUnknownType(local))
+                return local;
+            if (auto field = resolveField(asg->name, asg->line, asg->column))
+                return field->type;
+            return inferTypeInfo(asg->value.get());
+        }
+        if (auto masg = dynamic_cast<MemberAssignmentExpression*>(expr)) {
+            auto obj = inferTypeInfo(masg->object.get());
+            if (!obj.className.empty()) {
+                TypeInfo searchType = obj;
+                if (obj.isTypeParam) {
+                    auto bound = getTypeParamBound(obj.className);
+                    if (bound && !bound->className.empty())
+                        searchType = *bound;
+                }
+                if (auto* field = findFieldInHierarchy(searchType, masg->member)) {
+                    if (!searchType.typeArgs.empty()) {
+                        if (const ClassInfo* ci = findClass(searchType.className))
+                            return substituteTypeParams(field->type, ci->typeParams,
+                                                        searchType.typeArgs);
+                    }
+                    return field->type;
+                }
+            }
+            return inferTypeInfo(masg->value.get());
+        }
+        if (auto aasg = dynamic_cast<ArrayAssignmentExpression*>(expr)) {
+            auto collectionType = inferTypeInfo(aasg->collection.get());
+            if (isArrayType(collectionType) && !collectionType.typeArgs.empty())
+                return collectionType.typeArgs.front();
+            return combine(ValueType::Unknown, "");
+        }
         return combine(ValueType::Unknown, "");
     }
 
